@@ -69,14 +69,15 @@ const (
 
 // balloons contains configuration and runtime attributes of the balloons policy
 type balloons struct {
-	options   *policy.BackendOptions // configuration common to all policies
-	bpoptions *BalloonsOptions       // balloons-specific configuration
-	cch       cache.Cache            // nri-resource-policy cache
-	allowed   cpuset.CPUSet          // bounding set of CPUs we're allowed to use
-	reserved  cpuset.CPUSet          // system-/kube-reserved CPUs
-	freeCpus  cpuset.CPUSet          // CPUs to be included in growing or new ballons
-	ifreeCpus cpuset.CPUSet          // initially free CPUs before assigning any containers
-	cpuTree   *cpuTreeNode           // system CPU topology
+	options    *policy.BackendOptions // configuration common to all policies
+	bpoptions  *BalloonsOptions       // balloons-specific configuration
+	rawoptions *BalloonsOptions       // configuration as it was received, before defaults and builtin types were filled in
+	cch        cache.Cache            // nri-resource-policy cache
+	allowed    cpuset.CPUSet          // bounding set of CPUs we're allowed to use
+	reserved   cpuset.CPUSet          // system-/kube-reserved CPUs
+	freeCpus   cpuset.CPUSet          // CPUs to be included in growing or new ballons
+	ifreeCpus  cpuset.CPUSet          // initially free CPUs before assigning any containers
+	cpuTree    *cpuTreeNode           // system CPU topology
 
 	reservedBalloonDef *BalloonDef // reserved balloon definition, pointer to bpoptions.BalloonDefs[x]
 	defaultBalloonDef  *BalloonDef // default balloon definition, pointer to bpoptions.BalloonDefs[y]
@@ -1244,8 +1245,9 @@ func (p *balloons) Reconfigure(newCfg interface{}) error {
 		log.Debug("effective configuration:\n%s\n", utils.DumpJSON(p.bpoptions))
 	}()
 	newBalloonsOptions := balloonsOptions.DeepCopy()
-	if !changesBalloons(p.bpoptions, newBalloonsOptions) {
-		if !changesCpuClasses(p.bpoptions, newBalloonsOptions) {
+	// compare with the configuration as it was received: the effective one has defaults and builtin types filled in
+	if p.rawoptions != nil && !changesBalloons(p.rawoptions, newBalloonsOptions) {
+		if !changesCpuClasses(p.rawoptions, newBalloonsOptions) {
 			log.Info("no configuration changes")
 		} else {
 			log.Info("configuration changes only on CPU classes")
@@ -1254,9 +1256,15 @@ func (p *balloons) Reconfigure(newCfg interface{}) error {
 			// must be kept in use, because each Balloon
 			// instance holds a direct reference to its
 			// BalloonDef.
-			for i := range p.bpoptions.BalloonDefs {
-				p.bpoptions.BalloonDefs[i].CpuClass = newBalloonsOptions.BalloonDefs[i].CpuClass
+			for _, newDef := range newBalloonsOptions.BalloonDefs {
+				for _, blnDef := range p.bpoptions.BalloonDefs {
+					if blnDef.Name == newDef.Name {
+						blnDef.CpuClass = newDef.CpuClass
+					}
+				}
 			}
+			p.bpoptions.IdleCpuClass = newBalloonsOptions.IdleCpuClass
+			p.rawoptions = newBalloonsOptions
 			// (Re)configures all CPUs in balloons.
 			if err := p.resetCpuClass(); err != nil {
 				log.Warnf("failed to reset CPU class: %v", err)
@@ -1361,6 +1369,7 @@ func (p *balloons) validateConfig(bpoptions *BalloonsOptions) error {
 
 // setConfig takes new balloon configuration into use.
 func (p *balloons) setConfig(bpoptions *BalloonsOptions) error {
+	rawoptions := bpoptions.DeepCopy()
 	bpoptions = bpoptions.DeepCopy()
 
 	// Handle AvailableResources.cpus, if defined.
@@ -1403,6 +1412,7 @@ func (p *balloons) setConfig(bpoptions *BalloonsOptions) error {
 	p.balloons = []*Balloon{}
 	p.freeCpus = p.allowed.Clone()
 	p.bpoptions = bpoptions
+	p.rawoptions = rawoptions
 
 	// Create balloon instances in the order of AllocatorPriority.
 	for allocPrio := cpuallocator.CPUPriority(0); allocPrio <= cpuallocator.NumCPUPriorities; allocPrio++ {
